@@ -98,6 +98,10 @@ pub async fn handle_notify_get_or_head(
         return Err(req)
     }
 
+    // Subscribe before looking at the version so that an update happening
+    // in between is not missed.
+    let mut notify = notify.subscribe();
+
     let wait = match need_wait(&req, history) {
         Ok(wait) => wait,
         Err(resp) => return Ok(resp),
@@ -107,7 +111,7 @@ pub async fn handle_notify_get_or_head(
     crate::utils::sync::verif_pause("notify-after-check");
 
     if wait {
-        notify.subscribe().recv().await;
+        notify.recv().await;
     }
 
     if req.is_head() {
